@@ -70,11 +70,14 @@ pub struct Policy {
     pub mmap_fail_from: usize,
     /// library mprotect number k (1-based) fails (0 = never)
     pub mprotect_fail_at: usize,
+    /// library munmap number k (1-based, counted from the moment the policy is installed) fails with ENOMEM
+    pub munmap_fail_at: usize,
 }
 
 pub static POLICY: Mutex<Option<Policy>> = Mutex::new(None);
 pub static N_MMAP: AtomicUsize = AtomicUsize::new(0);
 pub static OCC_USED: AtomicUsize = AtomicUsize::new(0);
+pub static N_MUNMAP_POL: AtomicUsize = AtomicUsize::new(0);
 pub static N_MUNMAP: AtomicUsize = AtomicUsize::new(0);
 pub static N_MPROTECT: AtomicUsize = AtomicUsize::new(0);
 pub static N_FLUSH: AtomicUsize = AtomicUsize::new(0);
@@ -97,6 +100,7 @@ pub fn set_policy(p: Option<Policy>) {
         N_MMAP.store(0, SeqCst);
         N_MPROTECT.store(0, SeqCst);
         OCC_USED.store(0, SeqCst);
+        N_MUNMAP_POL.store(0, SeqCst);
     }
 }
 
@@ -234,6 +238,17 @@ pub unsafe extern "C" fn munmap(addr: *mut c_void, len: size_t) -> c_int {
     watch::diff_all("munmap");
     N_MUNMAP.fetch_add(1, SeqCst);
     let a = addr as u64;
+    {
+        let pol = POLICY.lock().unwrap().clone();
+        if let Some(p) = &pol {
+            if p.munmap_fail_at != 0 && N_MUNMAP_POL.fetch_add(1, SeqCst) + 1 == p.munmap_fail_at {
+                emit(json!({"ev":"Munmap","addr":a8(a),"len":len,"ret":-12,"owned":true,"foreign":false,
+                    "name":format!("m{:x}", a),"lock":lock_state(),"injected_failure":true}));
+                set_errno(libc::ENOMEM);
+                return -1;
+            }
+        }
+    }
     let owned_exact;
     let overlaps_foreign;
     {
